@@ -313,8 +313,9 @@ def run(harness, tier, seed, replay=None):
         'coverage': cov, 'assumptions': list(harness.assumptions),
         'wall_s': round(time.time() - t0, 2), 'violations': confirmed,
     }
-    os.makedirs(os.path.join(pin.VERIF, 'evidence'), exist_ok=True)
-    with open(os.path.join(pin.VERIF, 'evidence', pid + '.json'), 'w') as f:
+    evdir = os.environ.get('VERIF_EVIDENCE_DIR') or os.path.join(pin.VERIF, 'evidence')
+    os.makedirs(evdir, exist_ok=True)
+    with open(os.path.join(evdir, pid + '.json'), 'w') as f:
         json.dump(ev, f, indent=1, default=repr)
     print('%s tier=%s seed=%d evaluations=%d states=%d transitions=%d outcomes=%d known=%d violations=%d wall=%.1fs%s' % (
         pid, tier, seed, stats['evaluations'], stats['states'], stats['transitions'], len(stats['outcomes']),
